@@ -83,6 +83,12 @@ class C01(Prop):
                 yield {"k": "mul", "a": ops[2 * t], "b": ops[2 * t + 1]}
             yield {"k": "table", "as": ops[:8], "bs": ops[8:20]}
             yield {"k": "table", "as": ops[:10], "bs": ops[:10], "pkg": "py"}
+        # operands that share one string array: -P, i*P, -i*P are built by the library on P's own array
+        for n in (1, 2, 3):
+            keys3 = sorted({tuple(e[2]) for e in self.edges[n]})
+            for j, a in enumerate(keys3 if n < 3 else keys3[::4]):
+                for e_ in (1, 2, 3):
+                    yield {"k": "mulshared", "a": list(a), "e": e_, "side": (j + e_) % 2}
         # large batched products with two different factors (L1 * L2 * N beyond 2^16 and 2^17 elements per temporary)
         for n, l1, l2 in ((4, 120, 150), (7, 100, 110), (4, 150, 120)):
             a_ = [[rng.randrange(4) for _ in range(n)] + [rng.randrange(4)] for _ in range(l1)]
@@ -104,6 +110,25 @@ class C01(Prop):
         if k == "mul":
             r = self._mul(scn, be)
             return [r] if r is not None else []
+        if k == "mulshared":
+            a = scn["a"]
+            b = a[:-1] + [(a[-1] + scn["e"]) % 4]
+            rec = {"op": "mul", "shared": scn["e"]}
+            try:
+                A = be.pauli(a)
+                B = (1j, -1, -1j)[scn["e"] - 1] * A            # same string array, other phase
+                if be.p_pauli(B) != b:
+                    return []                                    # (scaling is judged under C20)
+                if scn["side"]:
+                    rec["a"], rec["b"] = a, b
+                    rec["ret"] = be.p_pauli(A @ B)
+                else:
+                    rec["a"], rec["b"] = b, a
+                    rec["ret"] = be.p_pauli(B @ A)
+            except Exception as e:
+                rec["exc"] = _exc(e)
+                rec.setdefault("a", a); rec.setdefault("b", b)
+            return [rec]
         if k == "table":
             return self._table(scn, be)
         if k == "chain":
